@@ -129,3 +129,31 @@ impl InitLoadUnverified {
         });
     }
 }
+
+#[cfg(feature = "verif-hooks")]
+impl InitLoadUnverified {
+    pub(crate) fn verif_find_unverified(&self) -> Vec<packed::Byte32> {
+        let found = std::cell::RefCell::new(Vec::new());
+        self.find_unverified_blocks(|hash| found.borrow_mut().push(hash.clone()));
+        found.into_inner()
+    }
+
+    pub(crate) fn verif_submit(&self, unverified_hash: &packed::Byte32) {
+        let unverified_block: BlockView = self
+            .shared
+            .store()
+            .get_block(unverified_hash)
+            .expect("unverified block must be in db");
+        self.chain_controller
+            .asynchronous_process_lonely_block(LonelyBlock {
+                block: Arc::new(unverified_block),
+                switch: None,
+                verify_callback: None,
+            });
+    }
+
+    pub(crate) fn verif_finish(&self) {
+        self.is_verifying_unverified_blocks_on_startup
+            .store(false, std::sync::atomic::Ordering::Release);
+    }
+}
